@@ -280,6 +280,21 @@ def run_impl_parallel(prop, cases, extra_env=None, chunk=None, timeout=1800, tag
     return out
 
 
+def run_impl_split(prop, cases, tag=""):
+    """like run_impl_parallel, but cases with a true "asrt" field run in interpreters started with
+    ANYTREE_ASSERTIONS=1 (the switch is read at import time)"""
+    obs = [None] * len(cases)
+    for flag in (False, True):
+        idx = [i for i, c in enumerate(cases) if bool(c.get("asrt")) == flag]
+        if not idx:
+            continue
+        res = run_impl_parallel(prop, [cases[i] for i in idx], extra_env={"ANYTREE_ASSERTIONS": "1" if flag else "0"},
+                                tag=tag + ("a" if flag else "n"))
+        for i, r in zip(idx, res):
+            obs[i] = r
+    return obs
+
+
 # ------------------------------------------------------------------ shards
 def _parse_report(out):
     m = re.search(r"^\s*=\s*(.*?)^\s*:\s", out, flags=re.S | re.M)
